@@ -62,10 +62,18 @@ func main() {
 			nn := n
 			out.Do(fmt.Sprintf("groupk %d", nn), func() string { return fmt.Sprintf("k=%d", groupKReal(nn)) })
 		}
+		wn := 300
+		if tier == "thorough" {
+			wn = 4000
+		}
+		wireStream(out, st, rng.Fork(), wn)
 		for _, sc := range impersonationScripts() {
 			r.runScript(sc)
 		}
 		for _, sc := range boundaryScripts() {
+			r.runScript(sc)
+		}
+		for _, sc := range lruScripts() {
 			r.runScript(sc)
 		}
 		for _, sc := range exhaustiveSmall() {
@@ -232,6 +240,8 @@ type stats struct {
 	IdEnc            map[string]int `json:"id_enc"`
 	ScriptLen        map[string]int `json:"script_len"`
 	DecodeDrops      int            `json:"decode_drops"`
+	WireStream       map[string]int `json:"wire_stream"`
+	Branches         map[string]int `json:"update_guard_aimed_at"`
 	Retained         int            `json:"retained_rounds"`
 	RetentionChanged []string       `json:"retention_changed"`
 }
@@ -239,7 +249,7 @@ type stats struct {
 func newStats() *stats {
 	return &stats{GroupSizes: map[string]int{}, Wire: map[string]int{}, Effects: map[string]int{}, Endings: map[string]int{},
 		SigShapes: map[string]int{}, RandShapes: map[string]int{}, Filed: map[string]int{}, DataHash: map[string]int{},
-		IdEnc: map[string]int{}, ScriptLen: map[string]int{}}
+		IdEnc: map[string]int{}, ScriptLen: map[string]int{}, WireStream: map[string]int{}, Branches: map[string]int{}}
 }
 
 func shapeClass(s string) string {
